@@ -204,13 +204,7 @@ func c08S2(r *Run, rep *core.Report) {
 							uses++
 							fi := unpublishedAt(r, rz, args[0], ref, 0)
 							// the receiver must also be the table the entries were copied into
-							var dest ssa.Value
-							for i, p := range mm.Copy.Params {
-								if familyParam(r, mm.Copy, i) {
-									_ = p
-									dest = c.Call.Args[i]
-								}
-							}
+							dest := copyDest(r, mm, c)
 							same := dest != nil && core.StripConv(dest) == core.CounterOwner(args[0])
 							rep.Check(fi.OK && same, "C08.S2", fn(rz)+" recount target", r.P.InstrPos(ref), "copied count added to the new, not yet published table the entries went to",
 								"copied count is added to a table that is published already or is not the copy's destination: "+fi.Why)
@@ -419,6 +413,43 @@ func loopBound(l *Loop, phi *ssa.Phi) ssa.Value {
 
 func c08S4(r *Run, rep *core.Report) {
 	n := 0
+	// the helper that updates the counter of a *published* table does it with one atomic read-modify-write: the
+	// stripes are shared by many buckets, so the bucket lock does not serialise two writers of one stripe, and an
+	// atomic load followed by an atomic store loses one of two concurrent updates (Size is then off for good)
+	seenAdd := map[*ssa.Function]bool{}
+	for _, mm := range r.M.Maps {
+		h := mm.AddSize
+		if h == nil || seenAdd[h] {
+			continue
+		}
+		seenAdd[h] = true
+		nAdd, nStore := 0, 0
+		var at ssa.Instruction
+		core.Instrs(h, func(in ssa.Instruction) {
+			switch x := in.(type) {
+			case ssa.CallInstruction:
+				if op, addr, ok := core.AtomicOp(x); ok && core.Addr(addr).Owner == r.M.StripeType() {
+					switch op {
+					case "Add":
+						nAdd++
+					case "Store", "Swap", "CAS":
+						nStore++
+						at = in
+					}
+				}
+			case *ssa.Store:
+				if core.Addr(x.Addr).Owner == r.M.StripeType() {
+					nStore++
+					at = in
+				}
+			}
+		})
+		pos := r.P.Pos(h.Pos())
+		if at != nil {
+			pos = r.P.InstrPos(at)
+		}
+		rep.Check(nAdd >= 1 && nStore == 0, "C08.S4", fn(h)+" atomic read-modify-write", pos, "the stripe is updated by a single atomic add", "the counter helper used on published tables does not update its stripe with a single atomic read-modify-write (load + store): two writers of buckets that share the stripe lose an update and Size stays wrong")
+	}
 	for _, mm := range r.M.Maps {
 		for _, h := range []*ssa.Function{mm.AddSize, mm.AddPlain} {
 			for _, site := range core.CallSitesOf(r.P.Funcs, h) {
